@@ -16,6 +16,7 @@
  *   recvmsg                    progress counter + receive failure injection
  *   getaddrinfo/freeaddrinfo   scripted resolver answers (the sandbox has no network), pairing counter ("gai")
  */
+#include <sys/time.h>
 #include <stddef.h>
 #include <semaphore.h>
 #include <stdarg.h>
@@ -204,6 +205,7 @@ static void sb_str(sb_t *b, const uint8_t *s, size_t n) { /* JSON string of byte
 	sb_put(b, "\"");
 }
 static void on_fault(int sig) {
+	if (sig == SIGPROF) sig = SIGALRM;      /* CPU-time budget of the per-line watchdog: the same verdict as its wall clock alarm */
 	char m[64]; int n = snprintf(m, sizeof(m), "\nFAULT sig=%d\n", sig);
 	if (n > 0) (void)!write(1, m, (size_t)n);
 	_exit(sig == SIGALRM ? 98 : 99);
@@ -528,12 +530,17 @@ static int sap_exec(const char *op, const char *a, sb_t *b) {
 }
 int main(void) {
 	static char line[40000];
-	signal(SIGSEGV, on_fault); signal(SIGBUS, on_fault); signal(SIGALRM, on_fault); signal(SIGPIPE, SIG_IGN);
+	signal(SIGSEGV, on_fault); signal(SIGBUS, on_fault); signal(SIGALRM, on_fault); signal(SIGPROF, on_fault); signal(SIGPIPE, SIG_IGN);
 	setvbuf(stdout, NULL, _IOLBF, 0);
 	while (fgets(line, sizeof(line), stdin)) {
 		char op[32]; int n = 0;
 		if (line[0] == '#' || sscanf(line, "%31s%n", op, &n) != 1) continue;
-		alarm(60);
+		{	/* per-line watchdog: a call takes about a millisecond; 3 s of CPU time of the process (a spinning call or pool thread; robust
+			 * on a loaded machine) or 60 s of wall clock (the driver's own bounded waits give up after 10 - 20 s) without an answer = it did not return -> "FAULT sig=14" */
+			struct itimerval it; memset(&it, 0, sizeof(it)); it.it_value.tv_sec = 3;
+			setitimer(ITIMER_PROF, &it, NULL);
+			alarm(60);
+		}
 		sb_t b = { 0 };
 		int ok = 0;
 		if (!strncmp(op, "hn.", 3)) ok = hn_exec(op, line + n, &b);
@@ -554,6 +561,7 @@ int main(void) {
 		__real_free(b.p);
 	}
 	alarm(0);
+	{ struct itimerval it; memset(&it, 0, sizeof(it)); setitimer(ITIMER_PROF, &it, NULL); }
 	if (SR) { run_on_pool(p_destroy, NULL); SR = NULL; }
 	if (g_tp) { tp_shutdown(g_tp); tp_shutdown_wait(g_tp); tp_destroy(g_tp); }
 	for (int i = 0; i < NOBJ; i++) { hostname_list_free(HN[i]); host_addr_free(HA[i]); }
